@@ -25,7 +25,7 @@ ASSUMPTIONS = ["where no valid argument exists in the state (truncate of an empt
                "snapshot compares file content, kind and permission bits; mtime is ignored"]
 EXHAUSTIVE = "the full kind x state x metadata x how x mutator matrix (no preceding history)"
 KINDS = {'Array': ['empty', 'nonempty', 'empty2d'], 'Ragged': ['nosub', 'emptyvalues', 'nonempty']}
-HOWS = ['default-open', 'create-r', 'assign', 'r-r+-r']
+HOWS = ['default-open', 'create-r', 'assign', 'r-r+-r', 'after-r+block']
 MUTS = {'Array': ['setitem', 'append', 'iterappend', 'truncate', 'delete', 'md.update', 'md.setitem', 'md.pop', 'md.popdefault', 'md.popitem', 'md.del'],
         'Ragged': ['append', 'append0', 'iterappend', 'truncate', 'delete', 'md.update', 'md.setitem', 'md.pop', 'md.popdefault', 'md.popitem', 'md.del']}
 MUST_HIT = [f'how:{h}' for h in HOWS] + [f'Array:{s}' for s in KINDS['Array']] + [f'Ragged:{s}' for s in KINDS['Ragged']] + \
@@ -126,6 +126,18 @@ def execute(ctx, spec):
                     h = _open(kind, path, 'r+')
                     _pre(out, kind, state, h, pre)
                     h.accessmode = 'r'
+                elif how == 'after-r+block':
+                    # the handle stays in mode 'r'; a documented per-block override writes (the same values) in between
+                    h = _open(kind, path)
+                    if kind == 'Array':
+                        with h.open_array(accessmode='r+'):
+                            if state == 'nonempty':
+                                h[0] = h[0]
+                            else:
+                                h[:] = 0
+                    else:
+                        with h.open_arrays(accessmode='r+'):
+                            _ = len(h)
                 else:
                     h = _open(kind, path)
                     h.accessmode = 'r+'
